@@ -64,7 +64,13 @@ def main():
         sh('git -C /repo checkout -- .')
         shutil.rmtree(ev, ignore_errors=True)
     meta['false_alarms'] = res
-    json.dump(meta, open(os.path.join(d, 'meta.json'), 'w'), indent=1)
+    mp = os.path.join(d, 'meta.json')
+    old = json.load(open(mp)) if os.path.exists(mp) else {}
+    if 'first_run_false_alarms' not in old and old.get('false_alarms') is not None:
+        old['first_run_false_alarms'] = old['false_alarms']
+    old.update(meta)
+    meta = old
+    json.dump(meta, open(mp, 'w'), indent=1)
     print(bid, meta.get('baseline_with_change'), 'false alarms:', {k: v['exit'] for k, v in res.items()})
     for k, v in res.items():
         for l in v['lines']:
